@@ -181,6 +181,9 @@ STRUCT = {
     "c11": ("get_quote_trait_params (assumed callee of the quote_*_trait contracts: `for` loop over a collection, parse_quote!)",
             "the deriving type's parameters are declared once on the impl (bounds kept, no defaults) and applied in argument form; counterpart-only lifetimes are declared; the dedicated-else-default where_clause is attached; by-reference impls over lifetimes get `&'o2o` with 'o2o outliving exactly the borrowed result's lifetimes",
             "11 parameter lists (lifetimes, bounded / defaulted / const parameters) x 8 counterpart paths (generic, lifetime, foreign and repeated lifetime arguments) x 12 conversion kinds x 4 where_clause settings"),
+    "c01": ("struct_init_block / struct_init_block_inner: which members are rendered, skipped, and how the body is delimited",
+            "From: every own field receives exactly its designated counterpart value; Into / into_existing: exactly the designated counterpart fields are written, each once, ghosts skipped, bare parents poured once, struct-level ghosts added",
+            "all member sequences of length 1..3 over 10 member forms (plain, renamed, expression, both, from/into pair, ghost, child, nested child + rename, `@`/`~` expressions, bare parent) x with / without struct-level ghosts: 2,220 structs x 6 impls, against an oracle written from the statement"),
     "c07": ("whole bodies (struct_init_block(_inner), struct_post_init, main_code_block) across the twelve impls of one input",
             "by-reference body = owned body with borrows; fallible body = Ok(..) of the infallible one with `?` on the poured parent; into_existing assigns to every field what into builds, and pours the same parents",
             "all member sequences of length 1..3 over 9 member forms (plain, renamed, expression, both, from/into pair, ghost, child, nested child, bare parent) x with / without struct-level ghosts = 1,638 structs, each with map + try_map + into_existing + try_into_existing (12 impls)"),
@@ -303,6 +306,9 @@ def _run(prop, tier):
     if prop == "C03":
         v, rep = structural("c03", prop)
         return {"violations": v, "report": {"nesting_trees": rep}}
+    if prop == "C01":
+        v, rep = structural("c01", prop)
+        return {"violations": v, "report": {"designated_fields": rep}}
     if prop == "C07":
         v, rep = structural("c07", prop)
         return {"violations": v, "report": {"flavours_agree": rep}}
